@@ -29,8 +29,8 @@ BigChecks(run) ==
                              /\ vis[i].parent \in vn],
     subset |-> [a |-> Len(vis) > 0, c |-> vn \subseteq ReachG],
     once |-> [a |-> Len(vis) > 0, c |-> Cardinality(vn) = Len(vis)],
-    complete |-> [a |-> comp,
-                  c |-> comp => /\ vn = ReachG
+    complete |-> [a |-> comp /\ ~cfg.no_visitor,
+                  c |-> (comp /\ ~cfg.no_visitor) => /\ vn = ReachG
                                 /\ d.unique = Cardinality(ReachG)
                                 /\ d.total >= d.unique
                                 /\ d.is_done],
@@ -42,6 +42,9 @@ BigChecks(run) ==
                              [] p.kind = "sometimes" -> disc(p.name) <=> Witnessed(G, p)
                              [] OTHER -> TRUE],
     stop_reason |-> [a |-> normal /\ Exhaustive(cfg) /\ cfg.target_depth = 0 /\ vn # ReachG, c |-> (normal /\ Exhaustive(cfg) /\ cfg.target_depth = 0 /\ vn # ReachG) => stop],
+    \* every state is evaluated exactly once also when the visitor is off: the model counts evaluations itself
+    evals_once |-> [a |-> comp /\ "evals" \in DOMAIN d /\ cfg.no_visitor,
+                    c |-> (comp /\ "evals" \in DOMAIN d /\ cfg.no_visitor) => (d.evals = Cardinality(ReachG) /\ d.unique = Cardinality(ReachG))],
     \* C12: the target counts really generated in-boundary states (see CheckerObs!target_real)
     target_real |-> [a |-> normal /\ cfg.target_states > 0 /\ Exhaustive(cfg) /\ vn # ReachG /\ ~AllDiscovered(G, run)
                            /\ ~Matches(cfg.finish, DiscNames(run), G.props),
